@@ -245,7 +245,7 @@ class PB(c01.P):
     """acyclic workbook compiled with cycles on; reference stays the plain from-scratch model"""
     CYC = {'iterations': 100, 'tolerance': 0.001}
 
-    def new(self):
+    def _new(self):
         from pycel.excelcompiler import ExcelCompiler
         if self.origin.startswith('inmem'):
             m = W.compile_inmem(dict(self.spec, calc={'iterate': True, 'count': 100, 'delta': 0.001}), cycles=True)
@@ -318,15 +318,21 @@ def run(ctx):
     vals = [7, 0, None, False, 't']
     for f in fams:
         if ctx.thorough:
-            for o in ('inmem', 'inmem-warm', 'xlsx', 'xlsx-warm'):
+            for o in ('inmem', 'inmem-warm', 'xlsx', 'xlsx-warm', 'inmem+thr', 'inmem-warm+thr'):
                 for s in range(4):
                     jobsb.append((f, o, vals, 3, 40000, (s, 4)))
         else:
             jobsb.append((f, 'inmem', vals[:3], 3, 8000, None))
-            for s in range(2):
-                jobsb.append((f, 'inmem-warm', vals, 3, 8000, (s, 2)))
+            ns = 6 if len(f['inputs']) >= 4 else 3 if len(f['inputs']) >= 3 else 2
+            for s in range(ns):
+                jobsb.append((f, 'inmem-warm', vals, 3, 8000, (s, ns)))
             jobsb.append((f, 'xlsx', vals[:3], 2, 8000, None))
             jobsb.append((f, 'xlsx-warm', vals[:3], 2, 8000, None))
+            if f['name'] in c01.THREADED:
+                # the operations of the history placed on two threads (iterative bookkeeping is per thread, the model is not)
+                f3 = dict(f, inputs=f['inputs'][:2])
+                jobsb.append((f3, 'inmem+thr', [7, None], 3, 8000, None))
+                jobsb.append((f3, 'inmem-warm+thr', [7, None], 3, 8000, None))
     ctx.pmap(work_b, jobsb, timeout=3000)
     ctx.counts['traces_validated_against_impl'] = ctx.counts.get('transitions', 0)
     ctx.extra['exhaustive'] = ctx.counts.get('b_jobs_capped', 0) == 0
@@ -359,6 +365,7 @@ def c01_replay_b(case):
         op = tuple(case['op'])
         obs = p.step(st, op)
         msg = p.check(st, (), op, obs)
+        p.dispose(st)
         lines.append(f'  {op} -> {obs!r}')
         lines.append('  verdict: ' + (msg or 'agrees with plain from-scratch model'))
         return bool(msg), '\n'.join(lines)
